@@ -740,7 +740,7 @@ func hostsFileScenario(x *explore.X, n int) {
 
 func TestC04(t *testing.T) {
 	s := explore.NewSuite(t, "C04", "exploration",
-		"controls {basic auth, deny-domains (include+exclude list), localhost denial, allowed time frame with the virtual clock inside/outside} x request kind(6: absolute-form, origin-form, CONNECT, inside a MITM'd tunnel, HTTP/1.0, POST with unusual header layout) x credential variant(22, incl. the right base64 text with letter case altered) x host spelling(17-19, incl. hosts-file aliases read by the oracle's own parser) x position on the connection(3); deviation-bounded exploration (D=2 quick, 3 thorough) plus the full products controls x kind x credentials and controls x kind x host; plus (time-frame-over-time) one proxy with frames sat/7-9, sat/22-24, sun/0-1 in 5 local time zones (UTC, +05:30, +05:45, -03:30, +13:00) and EVERY increasing sequence of 1-2 (quick) / 1-3 (thorough) request instants out of 16 placed 1 s around every frame boundary, midnight and the UTC hour boundaries of the fractional zones, each request decided by a reference from local weekday/hour; plus (hosts-file) every hosts file of 2 (quick) / 3 (thorough) lines out of 14 (loopback entries, other entries, blanks, comments and lines of 10 ... 70000 octets around the 4096 and 65536 buffer sizes) x {LF, CRLF} x {final line end or not} read by the function behind LocalhostAliases: refused, or every alias of a loopback address known; plus (concurrent-deny-decisions, Engine T) the deny-domains matcher of this configuration asked by 2-3 connections at once about 4 hosts (after 0-1 earlier questions), ruleset/regexp.go rebuilt with a scheduling point before every statement, every interleaving within 2 (quick) / 3 (thorough) preemptions: every verdict, and every later single verdict, is the list's; each execution compares the proxy's answer with the reference decision (first failing control in documented order) and proves from the in-memory network's dial log and byte counters that a refused request caused no connection and no byte upstream; (round 9) the configured credentials go through the option's parser (ParseUserinfo) and may begin / end with a blank (variant: the same text with the blanks trimmed must be refused); host spelling without a host (http://:8080/, CONNECT :8080)")
+		"controls {basic auth, deny-domains (include+exclude list), localhost denial, allowed time frame with the virtual clock inside/outside} x request kind(6: absolute-form, origin-form, CONNECT, inside a MITM'd tunnel, HTTP/1.0, POST with unusual header layout) x credential variant(22, incl. the right base64 text with letter case altered) x host spelling(17-19, incl. hosts-file aliases read by the oracle's own parser) x position on the connection(3); deviation-bounded exploration (D=2 quick, 3 thorough) plus the full products controls x kind x credentials and controls x kind x host; plus (time-frame-over-time) one proxy with frames sat/7-9, sat/22-24, sun/0-1 in 5 local time zones (UTC, +05:30, +05:45, -03:30, +13:00) and EVERY increasing sequence of 1-2 (quick) / 1-3 (thorough) request instants out of 16 placed 1 s around every frame boundary, midnight and the UTC hour boundaries of the fractional zones, each request decided by a reference from local weekday/hour; plus (hosts-file) every hosts file of 2 (quick) / 3 (thorough) lines out of 14 (loopback entries, other entries, blanks, comments and lines of 10 ... 70000 octets around the 4096 and 65536 buffer sizes) x {LF, CRLF} x {final line end or not} read by the function behind LocalhostAliases: refused, or every alias of a loopback address known; plus (concurrent-deny-decisions, Engine T) the deny-domains matcher of this configuration asked by 2-3 connections at once about 4 hosts (after 0-1 earlier questions), ruleset/regexp.go rebuilt with a scheduling point before every statement, every interleaving within 2 (quick) / 3 (thorough) preemptions: every verdict, and every later single verdict, is the list's; each execution compares the proxy's answer with the reference decision (first failing control in documented order) and proves from the in-memory network's dial log and byte counters that a refused request caused no connection and no byte upstream; (round 9) the configured credentials go through the option's parser (ParseUserinfo) and may begin / end with a blank (variant: the same text with the blanks trimmed must be refused); host spelling without a host (http://:8080/, CONNECT :8080); --basic-auth and --proxy-localhost given as command-line flags through the plumbing of package bind (choice)")
 	s.Assume = []string{"simnet owns every dial of the proxy (listen/dial seams)", "deny-domains semantics on host case are those of the configured regular expressions (C17)", "TZ=UTC"}
 	s.Add(explore.Scenario{Name: "bounded", Remote: true, MaxDev: map[string]int{"quick": 2, "thorough": 3},
 		Run: func(x *explore.X) { world.Run(t, x, func() { scenario(x, 0) }) }})
